@@ -740,7 +740,7 @@ def _sort_atoms(s):
     return set(re.findall(r'[A-Za-z_][A-Za-z0-9_.$]*', s)) - set(['Seq', 'Array', 'Int', 'Bool', 'String', 'Real'])
 
 
-def script(assertions, logic='ALL', get_model_for=None, extra_opts=()):
+def script(assertions, logic='ALL', get_model_for=None, extra_opts=(), hide=()):
     """Build a complete SMT-LIB script asserting all `assertions` (list of Bool terms)."""
     seen = {}
     acc = {'vars': {}, 'apps': set(), 'sorts': set()}
@@ -758,7 +758,7 @@ def script(assertions, logic='ALL', get_model_for=None, extra_opts=()):
         need_defs.append(n)
         fd = FUNDEFS[n]
         sub = {'vars': {}, 'apps': set(), 'sorts': set()}
-        if fd.body is not None:
+        if fd.body is not None and n not in hide:
             _collect(fd.body, {}, sub)
         for ax in fd.axioms:
             _collect(ax, {}, sub)
@@ -809,9 +809,9 @@ def script(assertions, logic='ALL', get_model_for=None, extra_opts=()):
         lines.append('(declare-fun %s () %s)' % (sym(n), acc['vars'][n]))
     for n in sorted(need_defs):
         f = FUNDEFS[n]
-        if f.body is None:
+        if f.body is None or n in hide:
             lines.append('(declare-fun %s (%s) %s)' % (sym(f.name), ' '.join(s for _, s in f.params), f.ret))
-    defs = [FUNDEFS[n] for n in sorted(need_defs) if FUNDEFS[n].body is not None]
+    defs = [FUNDEFS[n] for n in sorted(need_defs) if FUNDEFS[n].body is not None and n not in hide]
     if defs:
         # call graph among the needed definitions: recursive components go into define-funs-rec,
         # everything else is an ordinary define-fun (a macro for the solver), emitted in dependency order
